@@ -81,6 +81,7 @@ pub fn run_c19(cfg: &RunCfg, trace: bool) -> RunOut {
     let mut created_set: BTreeMap<String, i128> = BTreeMap::new();
     let (mut setters_ok, mut setters_err) = (0, 0);
     let all_mem = !cfg.specs[0].has_phys();
+    let mut sync_ok: Vec<Option<bool>> = vec![None; cfg.ops.len()];
     for (idx, op) in cfg.ops.iter().enumerate() {
         let i = idx + 1;
         cx.out.steps += 1;
@@ -106,6 +107,9 @@ pub fn run_c19(cfg: &RunCfg, trace: bool) -> RunOut {
         }
         if got.is_panic() {
             break;
+        }
+        if is_setter {
+            sync_ok[idx] = Some(got.is_ok());
         }
         macro_rules! fail {
             ($k:expr, $d:expr) => {{
@@ -225,8 +229,8 @@ pub fn run_c19(cfg: &RunCfg, trace: bool) -> RunOut {
     }
     // the async physical backend sets time stamps through tokio's blocking pool: with a runtime in
     // scope it must behave like the sync backend (same success, exact value, nothing else changed)
-    if cx.out.violations.is_empty() && cfg.specs[0].has_phys() && cfg.seed % 2 == 0 && !cfg.specs[0].has_ovl() {
-        if let Some((k, d, step)) = async_time_mirror(cfg, &mut cx.out) {
+    if cx.out.violations.is_empty() && cfg.specs[0].has_phys() && cfg.seed % 2 == 0 && (!cfg.specs[0].has_ovl() || all_phys(&cfg.specs[0])) {
+        if let Some((k, d, step)) = async_time_mirror(cfg, &mut cx.out, &sync_ok) {
             cx.out.violations.push(Violation { property: "C19".into(), key: format!("C19|{}/async|{}", shape, k), detail: d, step });
         }
     }
@@ -237,7 +241,18 @@ pub fn run_c19(cfg: &RunCfg, trace: bool) -> RunOut {
 }
 
 
-fn async_time_mirror(cfg: &RunCfg, out: &mut RunOut) -> Option<(String, String, usize)> {
+fn all_phys(spec: &crate::stack::Spec) -> bool {
+    use crate::stack::Spec;
+    match spec {
+        Spec::Phys { .. } => true,
+        Spec::Mem { .. } | Spec::Emb => false,
+        Spec::Alt { inner, .. } => all_phys(inner),
+        Spec::Ovl { layers } => layers.iter().all(all_phys),
+        Spec::OvlSub { base, .. } => all_phys(base),
+    }
+}
+
+fn async_time_mirror(cfg: &RunCfg, out: &mut RunOut, sync_ok: &[Option<bool>]) -> Option<(String, String, usize)> {
     use crate::asyncsim::*;
     let rt = tokio::runtime::Builder::new_current_thread().build().ok()?;
     let _guard = rt.enter();
@@ -273,6 +288,16 @@ fn async_time_mirror(cfg: &RunCfg, out: &mut RunOut) -> Option<(String, String, 
             }
             let fi = field_idx(*f);
             let value = crate::ops::to_nanos(crate::ops::from_parts(*secs, *nanos));
+            // every layer is physical: the async stack must accept / refuse exactly what the sync one does
+            // (an overlay refuses to re-time an entry that lives only in a lower layer)
+            if all_phys(&cfg.specs[0]) {
+                if let Some(Some(s_ok)) = sync_ok.get(idx) {
+                    out.count("probe.c19.async_vs_sync_setter_compared");
+                    if *s_ok != got.is_ok() {
+                        return Some((format!("{}|sync-vs-async-setter:{}-vs-{}", op.kind(), if *s_ok { "Ok" } else { "Err" }, got.class()), format!("step {} {:?}: the sync stack {} this setter, the async stack answers {}", i, op, if *s_ok { "accepts" } else { "refuses" }, short(&got)), i));
+                    }
+                }
+            }
             match (support(&cfg.specs[0], *f), &got) {
                 (Some(true), Res::Err(e)) => {
                     return Some((format!("{}|supported-setter-failed:{:?}", op.kind(), e.class), format!("step {} {:?}: the async physical backend (tokio runtime in scope) failed where the sync one succeeds: {}", i, op, e.display), i));
